@@ -43,11 +43,26 @@ func (t Tree) legal() bool {
 }
 
 type Tree struct {
-	Levels []int `json:"levels"`
-	Labels []int `json:"labels"`
+	Levels []int    `json:"levels"`
+	Labels []int    `json:"labels"`
+	Extra  []string `json:"extra,omitempty"` // explicit lines (equality-class trees); when set it is the whole text
+}
+
+func (t Tree) size() int {
+	if t.Extra != nil {
+		return len(t.lines(""))
+	}
+	return len(t.Levels)
 }
 
 func (t Tree) lines(marker string) []string {
+	if t.Extra != nil {
+		out := strings.Split(strings.Join(t.Extra, "\n"), "\n")
+		if marker != "" {
+			out = append(out[:1:1], append([]string{"1 " + marker + " m"}, out[1:]...)...)
+		}
+		return out
+	}
 	var out []string
 	for i, l := range t.Levels {
 		lb := alphabet[t.Labels[i]]
@@ -249,7 +264,7 @@ func judgeNodes(lt, rt Tree) (sig, what string) {
 	if p, msg, frame := vlib.Try(func() { res, err = gedcom.MergeNodes(L, R, doc) }); p {
 		return "panic:MergeNodes:" + frame + ":" + vlib.MsgClass(msg), msg
 	}
-	sameTag := alphabet[lt.Labels[0]].Tag == alphabet[rt.Labels[0]].Tag
+	sameTag := L.Tag().Tag() == R.Tag().Tag()
 	if !sameTag {
 		if err == nil || !gedcom.IsNil(res) {
 			return "merge-of-different-tags-not-an-error", "MergeNodes of different root tags must return an error"
@@ -283,7 +298,7 @@ func judgeNodes(lt, rt Tree) (sig, what string) {
 	}
 	// self merge adds nothing when no two siblings are equal
 	if lt.text() == rt.text() && !hasEqualSiblings(L) {
-		if gx.CountNodes(gedcom.Nodes{res}) != len(lt.Levels) || !gedcom.DeepEqual(res, L) {
+		if gx.CountNodes(gedcom.Nodes{res}) != lt.size() || !gedcom.DeepEqual(res, L) {
 			return "self-merge-adds-nodes", show
 		}
 	}
@@ -538,6 +553,36 @@ func run(tier, unit string, r *vlib.Rec) {
 				}
 			}
 		}
+	case "classes": // sibling multisets around every specialised Equals rule (gen.EqualityClassPool)
+		pool := gen.EqualityClassPool
+		mk := func(parts ...string) Tree { return Tree{Extra: append([]string{"0 @I1@ INDI"}, parts...)} }
+		for i := lo; i < hi; i++ {
+			for j := int(i) - 1; j < len(pool); j++ { // j == i-1: no second element
+				a := []string{pool[i]}
+				if j >= int(i) {
+					a = append(a, pool[j])
+				}
+				lt := mk(a...)
+				others := []Tree{lt, mk()}
+				if len(a) == 2 {
+					others = append(others, mk(a[1], a[0]))
+				}
+				for _, b := range pool {
+					others = append(others, mk(b))
+				}
+				for _, rt := range others {
+					for _, pr := range [][2]Tree{{lt, rt}, {rt, lt}} {
+						r.Eval()
+						r.Count("classes")
+						r.Nontrivial(pr[0].text() + "|" + pr[1].text())
+						l, rr := pr[0], pr[1]
+						if s, w := judgeNodes(l, rr); s != "" {
+							r.Fail(s, w, kase{Kind: "nodes", L: &l, R: &rr})
+						}
+					}
+				}
+			}
+		}
 	case "nil":
 		r.Eval()
 		r.Count("nil")
@@ -578,6 +623,7 @@ func plan(tier string) []string {
 	out := vlib.Chunks("nodes", int64(len(allTrees(3))), 10)
 	out = append(out, "nil:0:1")
 	out = append(out, vlib.Chunks("slices", int64(len(lists(3))), 4)...)
+	out = append(out, vlib.Chunks("classes", int64(len(gen.EqualityClassPool)), 1)...)
 	return out
 }
 
